@@ -168,7 +168,7 @@ def alias_battery(seed):
     lim = lambda: ref.fmt_limbs(rng.choice(ref.limb_candidates(rng, 12)))
     ops, meta = [], []
     for op, n in (("Add", 2), ("Subtract", 2), ("Multiply", 2), ("Negate", 1), ("Square", 1), ("Invert", 1), ("Pow22523", 1), ("Absolute", 1), ("Set", 1), ("SqrtRatio", 2)):
-        for t in range(6):
+        for t in range(6 if op != "SqrtRatio" else 24):
             a, b = lim(), lim()
             names = ["v", "a", "b"][:n + 1]
             base_args = names
